@@ -133,3 +133,62 @@ func Harness_C17_cap_histories() {
 	}
 	verif_Cover("C17.hist.done")
 }
+
+// The tunnel-connection cap (TunnelRegistry.MaxTunnels): over every history of registrations
+// (fresh or re-used connection ids, with or without a tunnel id, incl. a tunnel id another
+// connection already carries - a re-attach), authentications and removals, the number of
+// registered connections never exceeds the cap, and a refused registration changes nothing.
+func Harness_C17_tunnel_cap_histories() {
+	limit := verif_IntRange(0, 3) // symbolic: 0 = unlimited
+	reg := NewTunnelRegistry(&TunnelRegistryConfig{MaxTunnels: limit})
+	ids := []string{"c0", "c1", "c2"}
+	tids := []string{"", "t0"}
+	live := map[string]bool{}
+	n := verif_Bound("events")
+	for i := 0; i < n; i++ {
+		switch verif_Choose(3) {
+		case 0:
+			id := ids[verif_Choose(len(ids))]
+			tid := tids[verif_Choose(len(tids))]
+			before := reg.Count()
+			b0 := reg.GetByTunnelID("t0")
+			err := reg.Register(&TunnelConnection{ConnID: id, TunnelID: tid})
+			if err != nil {
+				verif_Assert("C17.tun.refused_only_at_cap", limit > 0 && before >= limit)
+				verif_Assert("C17.tun.refused_changes_nothing", reg.Count() == before && reg.GetByTunnelID("t0") == b0 && (reg.GetByConnID(id) != nil) == live[id])
+				verif_Cover("C17.tun.refused")
+			} else {
+				live[id] = true
+			}
+		case 1:
+			id := ids[verif_Choose(len(ids))]
+			reg.Remove(id)
+			delete(live, id)
+		case 2:
+			reg.UpdateAuth(ids[verif_Choose(len(ids))], "t0", "m")
+		}
+		cnt := reg.Count()
+		verif_Assert("C17.tun.count_matches", cnt == len(live) && cnt == len(reg.List()))
+		if limit > 0 {
+			verif_Assert("C17.tun.never_exceeded", cnt <= limit)
+		}
+	}
+	verif_Cover("C17.tun.done")
+}
+
+// Two tunnel registrations race at limit-1 occupancy (the second may re-attach a tunnel id that
+// is already registered).
+func Harness_C17_tunnel_cap_race() {
+	limit := 1 + verif_Choose(2)
+	reg := NewTunnelRegistry(&TunnelRegistryConfig{MaxTunnels: limit})
+	for i := 0; i < limit-1; i++ {
+		verif_Assert("C17.tunrace.pre", reg.Register(&TunnelConnection{ConnID: fmt.Sprintf("pre%d", i), TunnelID: "t0"}) == nil)
+	}
+	tid := []string{"", "t0"}[verif_Choose(2)]
+	verif_Spawn(func() { reg.Register(&TunnelConnection{ConnID: "r1", TunnelID: tid}) })
+	verif_Spawn(func() { reg.Register(&TunnelConnection{ConnID: "r2", TunnelID: tid}) })
+	verif_Quiesce()
+	verif_Assert("C17.tunrace.never_exceeded", reg.Count() <= limit)
+	verif_Assert("C17.tunrace.one_admitted", reg.Count() == limit)
+	verif_Cover("C17.tunrace.done")
+}
